@@ -167,7 +167,7 @@ def strategy_transform(tier):
             # by the statement the transformations keep an expression valid; the structural criterion agrees
             raise AssertionError(f"transformation {kind} produced an expression the criterion calls invalid: {t_ast}")
         hint_keys = ref.keys_of(t_ast, "hint")
-        texts = {k: draw(st.sampled_from(gen.HINT_TEXTS + [""])).replace("{key}", k) for k in hint_keys}
+        texts = {k: draw(st.sampled_from(gen.HINT_TEXTS)).replace("{key}", k) for k in hint_keys}
         return {"ast": ast, "s": text, "t_ast": t_ast, "t_s": t_text, "kind": kind, "site": list(site),
                 "assignments": assignments, "style": draw(st.sampled_from(["hardcoded", "hardcoded", "cer", "cer-recased"])),
                 "hint_texts": texts}  # fmt: skip
